@@ -108,6 +108,21 @@ def translate(sources: dict | None = None, pins: dict | None = None):
         if okplaces != 4:
             fail(f"holds flag assigned in {okplaces} places, expected 4 (init, consume, 2 releases)")
 
+    # ---- the context of a call: hashed from the value, recorded as a tag on the CallNode once it exists --------
+    ctx_assign = [src(n) for n in ast.walk(ex) if isinstance(n, ast.Assign) and src(n.targets[0]) == "job.context_hash"]
+    if ctx_assign != ["job.context_hash = self.type_registry.get_hash(context)"]:
+        fail(f"_exec_job_main_thread: the context hash is computed as {ctx_assign} "
+             "(expected the value hash of the context: an injective key for C05/C06)", ex)
+    for fname in ("_resolve_job_main_thread", "_reject_job_main_thread"):
+        fn = find_func(mod, fname, "Scheduler")
+        rec = [n.lineno for n in ast.walk(fn) if isinstance(n, ast.Call) and src(n.func) == "self.backend.record_call_node"]
+        tag = [n.lineno for n in ast.walk(fn) if isinstance(n, ast.Call) and src(n.func) == "self.backend.record_call_node_context"]
+        helper = [n for n in ast.walk(fn) if isinstance(n, ast.Call) and "record_call_node_context" in src(n.func)
+                  and src(n.func) != "self.backend.record_call_node_context"]
+        if len(rec) != 1 or len(tag) != 1 or helper or not tag[0] > rec[0]:
+            fail(f"{fname}: expected one record_call_node call followed by one record_call_node_context call "
+                 f"(found lines {rec} / {tag}); a failed or finished call's node must get its context tag", fn)
+
     # ---- early returns of _exec_job_main_thread ---------------------------------------
     col = [n for n in ex.body if isinstance(n, ast.If) and src(n.test) == "self._check_pending_job(job) is not None"]
     hit = [n for n in ex.body if isinstance(n, ast.If) and src(n.test) == "job.was_cached"]
